@@ -1,7 +1,8 @@
 (* C08 - in-place file replacement is all-or-nothing.
    Only statements, `exact`, and Print Assumptions here; proofs are in Sys/AtomicWriteProofs.v.
-   `v` ranges over the unchanged code (Orig) and the repaired code (Fixed, fixes/F11-*.diff);
-   every theorem quantified over v holds for both. *)
+   `v` ranges over the unchanged code (Orig), the code with fixes/F11-*.diff (Fixed = /repo HEAD) and
+   the code with fixes/F11b-*.diff on top (Fixed2: chown before chmod); every theorem quantified
+   over v holds for all three. *)
 From Coq Require Import NArith List Bool.
 From Verif Require Import Sys.AtomicWrite Sys.AtomicWriteProofs.
 Import ListNotations.
@@ -11,28 +12,28 @@ Import ListNotations.
    the complete new contents, is literally untouched until the final rename has been issued, and
    no path other than the target and "<target>.tmp.<pid>" is touched *)
 Theorem C08_crash_atomic : forall v e pid chunks f k,
-  let f' := fst (atomic_write v e pid f (firstn k (nofault (prog chunks)))) in
+  let f' := fst (atomic_write v e pid f (firstn k (nofault (prog v chunks)))) in
   target_old_or_new chunks f f' /\
-  (k < length (prog chunks) -> f' Target = f Target) /\
+  (k < length (prog v chunks) -> f' Target = f Target) /\
   (forall q, q <> Tmp pid -> q <> Target -> f' q = f q).
 Proof. exact crash_atomic. Qed.
 Print Assumptions C08_crash_atomic.
 
 (* fault_atomic: the same with an OSError injected at any single call j (and a crash after it) *)
 Theorem C08_fault_atomic : forall v e pid chunks f j flt k,
-  let f' := fst (atomic_write v e pid f (firstn k (inject j flt (prog chunks)))) in
+  let f' := fst (atomic_write v e pid f (firstn k (inject j flt (prog v chunks)))) in
   target_old_or_new chunks f f' /\
-  (k < length (prog chunks) -> f' Target = f Target) /\
+  (k < length (prog v chunks) -> f' Target = f Target) /\
   (forall q, q <> Tmp pid -> q <> Target -> f' q = f q).
 Proof. exact fault_atomic. Qed.
 Print Assumptions C08_fault_atomic.
 
 (* ... and with any pattern of faults on any number of calls *)
 Theorem C08_fault_atomic_any_pattern : forall v e pid chunks f xs k,
-  map fst xs = prog chunks ->
+  map fst xs = prog v chunks ->
   let f' := fst (atomic_write v e pid f (firstn k xs)) in
   target_old_or_new chunks f f' /\
-  (k < length (prog chunks) -> f' Target = f Target) /\
+  (k < length (prog v chunks) -> f' Target = f Target) /\
   (forall q, q <> Tmp pid -> q <> Target -> f' q = f q).
 Proof. exact crash_fault_atomic. Qed.
 Print Assumptions C08_fault_atomic_any_pattern.
@@ -40,30 +41,30 @@ Print Assumptions C08_fault_atomic_any_pattern.
 (* all-or-nothing is reported: the call returns normally iff the target now holds the new text
    (and then the temporary name is gone); if it raises, the target is the untouched old file *)
 Theorem C08_returns_iff_replaced : forall v e pid chunks f xs f' l',
-  map fst xs = prog chunks ->
+  map fst xs = prog v chunks ->
   atomic_write v e pid f xs = (f', l') ->
   (raised l' = false /\ content_of f' Target = Some (concat chunks) /\ f' (Tmp pid) = None) \/
   (raised l' = true /\ f' Target = f Target).
 Proof. exact returns_iff_replaced_gen. Qed.
 Print Assumptions C08_returns_iff_replaced.
 
-(* mode_preserved: fault-free, the replacement carries the original's permission bits *)
+(* mode_preserved: fault-free, the replacement carries the original's mode bits: all twelve of them
+   when chown precedes chmod (Fixed2: mode_bound = 010000), the permission bits and the sticky bit
+   (m < 02000) when chmod precedes chown (Orig, Fixed), because a successful chown clears set-uid
+   and set-gid (F11b, refuted below for those two variants) *)
 Theorem C08_mode_preserved : forall v e pid chunks c0 m g f,
-  (m < sugid_free)%N -> f Target = Some (mkFile c0 m g) ->
-  let r := atomic_write v e pid f (nofault (prog chunks)) in
+  (m < mode_bound v)%N -> f Target = Some (mkFile c0 m g) ->
+  let r := atomic_write v e pid f (nofault (prog v chunks)) in
   raised (snd r) = false /\
   exists x, fst r Target = Some x /\ fcontent x = concat chunks /\ fmode x = m.
 Proof. exact mode_preserved. Qed.
 Print Assumptions C08_mode_preserved.
 
-(* The hypothesis m < sugid_free (neither set-uid nor set-gid) cannot be dropped: the code calls
-   chmod and then chown, and on Linux a successful chown clears those two bits (known finding F11b;
-   the property speaks of the permission bits).  Original 04755 -> replacement 0755: *)
-Theorem C08_mode_preserved_sugid_refuted : forall v,
+Theorem C08_mode_preserved_sugid_refuted : forall v, v <> Fixed2 ->
   let f := upd (fun _ => None) Target (Some (mkFile [111]%N 2541 0)) in
-  let r := atomic_write v (mkEnv 420 0 (fun _ => true)) 7 f (nofault (prog [[110]%N])) in
+  let r := atomic_write v (mkEnv 420 0 (fun _ => true)) 7 f (nofault (prog v [[110]%N])) in
   raised (snd r) = false /\ option_map fmode (fst r Target) = Some 493%N.
-Proof. intros [|]; vm_compute; split; reflexivity. Qed.
+Proof. intros [| |] H; try congruence; vm_compute; split; reflexivity. Qed.
 Print Assumptions C08_mode_preserved_sugid_refuted.
 
 (* mode_preserved_under_fault.  Full statement: for every fault pattern, if the target is replaced
@@ -71,10 +72,10 @@ Print Assumptions C08_mode_preserved_sugid_refuted.
    an OSError at stat or chmod is swallowed and the rename goes ahead with the temporary file's
    default mode.  TRUE of the repaired code, for every fault pattern that does not make stat
    report a spurious ENOENT for an existing original. *)
-Theorem C08_mode_preserved_under_fault : forall e pid chunks c0 m g f xs,
-  (m < sugid_free)%N -> f Target = Some (mkFile c0 m g) ->
-  map fst xs = prog chunks -> Forall (fun x => snd x <> FaultENOENT) xs ->
-  let r := atomic_write Fixed e pid f xs in
+Theorem C08_mode_preserved_under_fault : forall v e pid chunks c0 m g f xs,
+  v <> Orig -> (m < mode_bound v)%N -> f Target = Some (mkFile c0 m g) ->
+  map fst xs = prog v chunks -> Forall (fun x => snd x <> FaultENOENT) xs ->
+  let r := atomic_write v e pid f xs in
   (raised (snd r) = false /\ exists x, fst r Target = Some x /\ fcontent x = concat chunks /\ fmode x = m) \/
   (raised (snd r) = true /\ fst r Target = f Target).
 Proof. exact mode_preserved_under_fault. Qed.
@@ -87,7 +88,7 @@ Definition f11_env : env := mkEnv 420 0 (fun _ => true).
 Definition f11_fs : fs := upd (fun _ => None) Target (Some (mkFile [111; 108; 100]%N 384 0)).
 Theorem C08_mode_preserved_under_fault_orig_refuted :
   exists j flt, flt <> FaultENOENT /\
-    let r := atomic_write Orig f11_env 7 f11_fs (inject j flt (prog [[110; 101; 119]%N])) in
+    let r := atomic_write Orig f11_env 7 f11_fs (inject j flt (prog Orig [[110; 101; 119]%N])) in
     raised (snd r) = false /\
     option_map fcontent (fst r Target) = Some [110; 101; 119]%N /\
     option_map fmode (fst r Target) = Some 420%N /\
@@ -99,7 +100,7 @@ Print Assumptions C08_mode_preserved_under_fault_orig_refuted.
    either: every intermediate state has the target in {old, d1, d2}; if at least one writer
    returned normally the final target is d1 or d2 *)
 Theorem C08_two_writers_faults : forall v e p1 p2 c1 c2 f xs1 xs2 l,
-  p1 <> p2 -> map fst xs1 = prog c1 -> map fst xs2 = prog c2 ->
+  p1 <> p2 -> map fst xs1 = prog v c1 -> map fst xs2 = prog v c2 ->
   interleave (tag L xs1) (tag R xs2) l ->
   (forall k, target_in c1 c2 (content_of f Target) (sfs (srun v e p1 p2 (sys0 f) (firstn k l)))) /\
   (raised (loc1 (srun v e p1 p2 (sys0 f) l)) = false \/ raised (loc2 (srun v e p1 p2 (sys0 f) l)) = false ->
@@ -110,7 +111,7 @@ Print Assumptions C08_two_writers_faults.
 (* fault-free: both return normally and the final contents are one writer's complete output *)
 Theorem C08_two_writers : forall v e p1 p2 c1 c2 f l,
   p1 <> p2 ->
-  interleave (tag L (nofault (prog c1))) (tag R (nofault (prog c2))) l ->
+  interleave (tag L (nofault (prog v c1))) (tag R (nofault (prog v c2))) l ->
   (forall k, target_in c1 c2 (content_of f Target) (sfs (srun v e p1 p2 (sys0 f) (firstn k l)))) /\
   target_new c1 c2 (sfs (srun v e p1 p2 (sys0 f) l)) /\
   raised (loc1 (srun v e p1 p2 (sys0 f) l)) = false /\ raised (loc2 (srun v e p1 p2 (sys0 f) l)) = false.
@@ -127,24 +128,30 @@ Print Assumptions C08_schedules_are_interleavings.
 Definition ex_env : env := mkEnv 420 0 (fun _ => true).
 Definition ex_fs : fs := upd (fun _ => None) Target (Some (mkFile [1; 2; 3]%N 493 5)).
 Example C08_nonvacuous_single :
-  let r := atomic_write Fixed ex_env 9 ex_fs (nofault (prog [[7; 8]%N; [9]%N])) in
+  let r := atomic_write Fixed ex_env 9 ex_fs (nofault (prog Fixed [[7; 8]%N; [9]%N])) in
   fst r Target = Some (mkFile [7; 8; 9]%N 493 5) /\ fst r (Tmp 9) = None /\ raised (snd r) = false
-  /\ content_of (fst (atomic_write Fixed ex_env 9 ex_fs (firstn 7 (nofault (prog [[7; 8]%N; [9]%N]))))) (Tmp 9) = Some [7; 8; 9]%N
-  /\ fst (atomic_write Fixed ex_env 9 ex_fs (firstn 7 (nofault (prog [[7; 8]%N; [9]%N])))) Target = ex_fs Target.
+  /\ content_of (fst (atomic_write Fixed ex_env 9 ex_fs (firstn 7 (nofault (prog Fixed [[7; 8]%N; [9]%N]))))) (Tmp 9) = Some [7; 8; 9]%N
+  /\ fst (atomic_write Fixed ex_env 9 ex_fs (firstn 7 (nofault (prog Fixed [[7; 8]%N; [9]%N])))) Target = ex_fs Target.
 Proof. vm_compute. repeat split. Qed.
 Example C08_nonvacuous_fault_fixed :   (* the repaired code refuses instead of losing the mode *)
-  let r := atomic_write Fixed f11_env 7 f11_fs (inject 4 FaultOther (prog [[110; 101; 119]%N])) in
+  let r := atomic_write Fixed f11_env 7 f11_fs (inject 4 FaultOther (prog Fixed [[110; 101; 119]%N])) in
   raised (snd r) = true /\ fst r Target = f11_fs Target.
 Proof. vm_compute. repeat split. Qed.
 Example C08_nonvacuous_two :
-  let l := merge [true; false; true; false; false; false; false; false; false; true] (nofault (prog [[1]%N])) (nofault (prog [[2]%N; [3]%N])) in
+  let l := merge [true; false; true; false; false; false; false; false; false; true] (nofault (prog Fixed [[1]%N])) (nofault (prog Fixed [[2]%N; [3]%N])) in
   content_of (sfs (srun Fixed ex_env 1 2 (sys0 ex_fs) l)) Target = Some [2; 3]%N /\
   content_of (sfs (srun Fixed ex_env 1 2 (sys0 ex_fs) (firstn 14 l))) Target = Some [1]%N /\
   content_of (sfs (srun Fixed ex_env 1 2 (sys0 ex_fs) (firstn 13 l))) Target = Some [1; 2; 3]%N.
 Proof. vm_compute. repeat split. Qed.
+Example C08_nonvacuous_setuid_kept :   (* chown before chmod: 04755 stays 04755, also when the chown fails *)
+  let f := upd (fun _ => None) Target (Some (mkFile [111]%N 2541 5)) in
+  option_map fmode (fst (atomic_write Fixed2 (mkEnv 420 0 (fun _ => true)) 7 f (nofault (prog Fixed2 [[110]%N]))) Target) = Some 2541%N /\
+  option_map fmode (fst (atomic_write Fixed2 (mkEnv 420 0 (fun _ => false)) 7 f (nofault (prog Fixed2 [[110]%N]))) Target) = Some 2541%N /\
+  prog Fixed2 [] = [IOpen; IClose; IStat; IChown; IChmod; IRename] /\ prog Fixed [] = [IOpen; IClose; IStat; IChmod; IChown; IRename].
+Proof. vm_compute. repeat split. Qed.
 (* the hypothesis p1 <> p2 is needed: with one pid the two writers share the temporary file and
    the target ends up holding neither text *)
 Example C08_same_pid_mixes :
-  let l := merge [true; false; true; false] (nofault (prog [[1; 1; 1]%N])) (nofault (prog [[2]%N])) in
+  let l := merge [true; false; true; false] (nofault (prog Fixed [[1; 1; 1]%N])) (nofault (prog Fixed [[2]%N])) in
   content_of (sfs (srun Fixed ex_env 4 4 (sys0 ex_fs) l)) Target = Some [2; 1; 1]%N.
 Proof. vm_compute. repeat split. Qed.
